@@ -2,34 +2,45 @@
   Refinement, closing file: the theorems of
     SMGo/Proofs/CTIRRefineComb.lean   (schedules modulo callees),
     SMGo/Proofs/CTIRRefinePointB.lean (selection / transformation discharged: `ir_scalarMult_pointOps`,
-                                       `ir_scalarBaseMult_pointOps`),
-    SMGo/Proofs/CTIRRefinePointA.lean (NewSM2Point, Set, Add, Double modulo the Fiat primitives),
+                                       `ir_scalarBaseMult_pointOps`; inversion, GetAffineX, Bytes modulo the primitives),
+    SMGo/Proofs/CTIRRefinePointA.lean (NewSM2Point, Set, Add, Double, … modulo the six Fiat primitives `FiatPrims`),
+    SMGo/Proofs/CTIRRefineField.lean  (element wrappers Bytes, IsZero, Equal, SetBytes modulo `BytesPrims`, `SetBytesPrims`),
     SMGo/Proofs/CTIRRefineFiat.lean   (the Fiat primitives of `prog` = the regenerated let-chains `Gen.FiatP.*`)
-  COMPOSED into closed corollaries.  Nothing here looks at an IR statement except the local re-derivations of
-  section 2 (copies of PointA's generic SLP lemma with a weaker hypothesis, see MISMATCH below).
+  COMPOSED into closed corollaries.  This file contains no reasoning about IR statements: every proof is an application
+  of theorems of those files (plus four kernel evaluations of globals and four of table shapes).
 
-  PART 1 (abstract carrier `α`, encoding `enc`, any `Model.Point.Ctx α`): `ir_scalarMult_eq_model_closed`,
-  `ir_scalarBaseMult_eq_model_closed`: the conclusions of the two schedule theorems with the callee hypotheses
-  `hnew hdbl hadd hset` discharged.  What remains: the bundle `FiatPrims` of PointA (six Fiat primitives), `CtxOk`
-  (`EncOk`, `enc zero = [0,0,0,0]`, globals 0 and 6, `C.addProg = Gen.PointSLP.add` …) and the domain / table side
-  conditions of the schedule theorems.  `…_closedW`: the same from the weaker bundle `FiatPrimsW` (receivers `Out4`).
+  PART 1 (section 1; abstract carrier `α`, encoding `enc`, any `Model.Point.Ctx α`):
+    `ir_scalarMult_eq_model_closed`, `ir_scalarBaseMult_eq_model_closed`: the conclusions of the two schedule theorems
+    with the callee hypotheses `hnew hdbl hadd hset` discharged by PointA.  What remains: the bundle `FiatPrims` of PointA
+    (the six Fiat primitives on `Out4` destinations), `CtxOk` (`EncOk`, `enc zero = [0,0,0,0]`, globals 0 and 6,
+    `C.addProg = Gen.PointSLP.add` …) and the domain / table side conditions of the schedule theorems.
+    `ir_Invert_closed`, `ir_GetAffineX_closed`, `ir_PointBytes_closed`: PointB's theorems from `FiatPrims` and `AffineOk`
+    (chain = generated chain, global 2, `BytesPrims` at every element).
+    Every bundle is satisfiable for `prog`: `fiatPrims4`, `ctxOk4`, `affineOk4` below are the proofs.
 
-  PART 2 (fully closed): the carrier `Limbs = {l // Out4 l}` of well-formed limb vectors, `fiatP4` = `Model.SM2.fiatP`
-  restricted to it (`fiatP4_*_val`, all `rfl`), `pointCtx4`; `fiatPrimsW4`, `encOk4`, `bytesPrims4`,
-  `setBytesPrims4`, the globals of the generated program (`globals_0`, `globals_6`, … by kernel evaluation of the init
-  functions), and `ir_scalarMult_eq_model_fiat`, `ir_scalarBaseMult_eq_model_fiat` with NO `Computes` hypothesis.
+  PART 2 (sections 2, 3; fully closed): the carrier `Limbs = {l // Out4 l}` of well-formed limb vectors, `fiatP4` =
+    `Model.SM2.fiatP` restricted to it (`fiatP4_*_val`, all `rfl`), `pointCtx4`; the bundles as theorems
+    (`fiatPrims4`, `encOk4`, `bytesPrims4`, `setBytesPrims4`), the globals of the generated program (`globals_0`,
+    `globals_1`, `globals_2`, `globals_6`: the kernel runs the init functions; `globals_7`, `globals_8`: `rfl`), and
+      `ir_scalarMult_eq_model_fiat`, `ir_scalarBaseMult_eq_model_fiat`, `ir_scalarBaseMult_6_3_14_fiat` (the generated
+      6-3-14 tables, all table side conditions discharged), `ir_Invert_fiat`, `ir_GetAffineX_fiat`, `ir_PointBytes_fiat`,
+      and the functions below them (`ir_PointAdd_fiat`, …, `ir_Bytes_fiat`, `ir_SetBytes_fiat`, …)
+    with NO `Computes` hypothesis.  Remaining hypotheses, all about the external world `X`, all true of the executable
+    oracle `stdOracle extKinds tape` (`…_std` variants have no hypothesis at all):
+      * `hX : ∃ v, X 10 […] = [v]`  (`fmt.Errorf`, external 10, returns one value; used on the error path `len(k) ≠ 32`);
+      * `hX : ∀ b, X 7 [bytesV b] = [Bytes.toNatBE b]`  (`big.Int.SetBytes`, GetAffineX only).
 
-  MISMATCH found (reported, not papered over):
-  * PointA's `FiatPrims.mul` (etc.) quantifies over every destination `o` with `o.length = 4` (limbs unbounded);
-    CTIRRefineFiat proves the primitives for `Out4 o` (the mirror evaluator needs every argument within its word
-    size).  The IR does return the same result for unbounded `o` (evaluated), but that is not what is proved.  PointA
-    only ever instantiates `o` with `[0,0,0,0]` or `enc _`.  Hence `FiatPrims prog G X fiatP4 …` is NOT derivable
-    from CTIRRefineFiat; this file defines `FiatPrimsW` (`Out4 o →`) and re-derives NewSM2Point / Add / Double from it
-    (section 2: `slp_stepW`, `slp_foldW` are PointA's `slp_step`, `slp_fold` with `Out4` receivers).
-  * PointB's `hsq : ∀ o a, Computes … [limbsV o, limbsV (enc a)] …`, `hmul` (Invert, GetAffineX, (*SM2Point).Bytes)
-    have NO condition on `o` and the receiver `z0` of Invert is arbitrary: FALSE for `prog`
-    (`runT prog globals noX 30000 f_fiat_sm2Square [limbsV [], limbsV [1,2,3,4]]` is stuck; `o = [0,0,0,0,7]` returns
-    five limbs).  Section 5 re-derives the inversion chain, Invert, GetAffineX and Bytes with `Out4` receivers.
+  PART 3 (section 4; transfer to the model of SMGo/Props/SM2Fiat.lean): `pointCtx4` is `Model.SM2.pointCtxFiat` on the
+    sub-carrier; every operation commutes with `Subtype.val` (`grel4`, through the generic simulation lemmas of
+    SMGo/Proofs/FiatComposeCurve.lean), so the closed statements are restated over `Model.SM2.pointCtxFiat` /
+    `Model.SM2.ctxFiat` (carrier `List Nat`, points with `Out4` coordinates, encoding `ptV id`):
+      `ir_scalarMult_eq_pointCtxFiat`, `ir_scalarBaseMult_eq_ctxFiat_std` (= `Model.SM2.scalarBaseMult ctxFiat k`,
+      no hypothesis at all), `ir_GetAffineX_eq_pointCtxFiat_std`, `ir_PointBytes_eq_pointCtxFiat`.
+
+  HISTORY of a mismatch (found while composing, fixed at the source, nothing left): PointA's `FiatPrims` quantified over
+  destinations `o` with `o.length = 4` only, PointB's `hsq`/`hmul` over EVERY `o` (false for `prog`:
+  `runT prog globals noX 30000 f_fiat_sm2Square [limbsV [], limbsV [1,2,3,4]]` is stuck, `o = [0,0,0,0,7]` returns five
+  limbs), while CTIRRefineFiat proves the primitives for `Out4 o`.  Both files now take `Out4 o →`.
 -/
 import SMGo.Proofs.CTIRRefineField
 import SMGo.Proofs.CTIRRefineComb
@@ -38,6 +49,7 @@ import SMGo.Proofs.CTIRRefinePointB
 import SMGo.Proofs.CTIRRefineFiat
 import SMGo.Model.SM2InstFiat
 import SMGo.Model.Curve
+import SMGo.Proofs.FiatComposeCurve
 open SMGo SMGo.Model.CTIR SMGo.Gen.CTIRProg SMGo.Proofs.CTIRRefineUtils SMGo.Proofs.CTIRRefineField
 open SMGo.Proofs.CTIRRefinePointA hiding ptV evalV_coord
 open SMGo.Proofs.CTIRRefinePointB (EncOk TableOk ptV computes_comb fuelTP fuelXY fuelSelectPoints Table)
@@ -55,8 +67,6 @@ theorem ptV_A {α : Type} (enc : α → List Nat) (p : Model.Point.Pt α) : CTIR
 
 theorem ptV_raw {α : Type} (enc : α → List Nat) (p : Model.Point.Pt α) :
     ptV enc p = ptRawV (enc p.x) (enc p.y) (enc p.z) := rfl
-
-theorem out4_zero : Out4 [0, 0, 0, 0] := ⟨0, 0, 0, 0, rfl, by decide, by decide, by decide, by decide⟩
 
 /-- HYPOTHESES on the point context, its encoding and the globals of the program: the encoding is by four limbs
     below 2^64 (`EncOk`), the Go zero value encodes `F.zero`, global 0 (`internal.sm2ElementOne`) holds the one,
@@ -157,7 +167,8 @@ theorem ir_scalarBaseMult_of_pointFns {Fnew Fdbl Fa Fset W : Nat} (hc : CtxOk G 
     hf.new hf.dbl hf.add hf.set hW hT hX hprod hlen hsec
 
 /-- **ScalarMult = `Model.Curve.scalarMult (pointOps C)`**, only the six Fiat primitives (`FiatPrims`) and the facts
-    about the context (`CtxOk`) left as hypotheses -/
+    about the context (`CtxOk`) left as hypotheses (both satisfiable for `prog`: `fiatPrims4`, `ctxOk4`); `hlen`: the
+    length of a Go slice is an `int` -/
 theorem ir_scalarMult_eq_model_closed (hp : FiatPrims prog G X C.F enc Fmul Fsq Fadd Fsub Fopp Fone) (hc : CtxOk G C enc)
     (Pt : Model.Point.Pt α) (scalar : Bytes) (hlen : scalar.length < 2 ^ 63) :
     match Model.Curve.scalarMult (pointOps C) Pt scalar with
@@ -170,7 +181,11 @@ theorem ir_scalarMult_eq_model_closed (hp : FiatPrims prog G X C.F enc Fmul Fsq 
   ir_scalarMult_of_pointFns hc (pointFns_of_prims hp hc) Pt scalar hlen
 
 /-- **scalarBaseMult_SkipBitExtration = `Model.Curve.scalarBaseMult (pointOps C)`**, only the six Fiat primitives, the
-    facts about the context and the table / domain side conditions of `ir_scalarBaseMult_pointOps` left -/
+    facts about the context and the table / domain side conditions of `ir_scalarBaseMult_pointOps` left.
+    All hypotheses are satisfiable for `prog`: `hp` by `fiatPrims4`, `hc` by `ctxOk4`; `hW`, `hT` (every table that is
+    used has rows x, y with `width ≤ W` entries of four limbs: Go's types), `hprod`, `hlen`, `hsec` are discharged for
+    the generated 6-3-14 tables in `ir_scalarBaseMult_6_3_14_fiat`; `hX` (external 10 = `fmt.Errorf` returns one value)
+    holds for `stdOracle extKinds tape` (`stdOracle_errorf`). -/
 theorem ir_scalarBaseMult_eq_model_closed {W : Nat} (hp : FiatPrims prog G X C.F enc Fmul Fsq Fadd Fsub Fopp Fone)
     (hc : CtxOk G C enc) (k : Bytes) (first : List Table) (second : Table)
     (window subTableCount iterations remainder : Nat)
@@ -199,390 +214,48 @@ theorem ir_scalarBaseMult_eq_model_closed {W : Nat} (hp : FiatPrims prog G X C.F
   ir_scalarBaseMult_of_pointFns hc (pointFns_of_prims hp hc) k first second window subTableCount iterations remainder
     hW hT hX hprod hlen hsec
 
+/-! ### Inversion, affine x, encoding: PointB's theorems from `FiatPrims` and `BytesPrims` -/
+
+/-- HYPOTHESES for the affine conversions: the inversion chain of the model is the generated one, global 2
+    (`fiat.sm2ZeroEncoding`) holds the encoding of zero, and sm2FromMontgomery / sm2ToBytes compute the model at
+    every element (`BytesPrims` of CTIRRefineField, fuels `Fm`, `Ft`) -/
+structure AffineOk {α : Type} (G : Nat → Val) (X : Oracle) (C : Model.Point.Ctx α) (enc : α → List Nat) (Fm Ft : Nat) : Prop where
+  chain : C.F.chain = SMGo.Gen.AddChain.fieldInverse
+  chainRegs : C.F.chainRegs = SMGo.Gen.AddChain.fieldInverse_regs
+  zeroEnc : G 2 = bytesV (Model.Field.bytes C.F C.F.zero)
+  bytes : ∀ e, BytesPrims prog G X C.F enc Fm Ft e
+
+variable {Fm Ft : Nat}
+
+/-- **(*SM2Element).Invert = `Model.Field.invert`** (the generated addition chain), receiver with any `Out4` limbs -/
+theorem ir_Invert_closed (hp : FiatPrims prog G X C.F enc Fmul Fsq Fadd Fsub Fopp Fone)
+    (hchain : C.F.chain = SMGo.Gen.AddChain.fieldInverse) (hregs : C.F.chainRegs = SMGo.Gen.AddChain.fieldInverse_regs)
+    (z0 : List Nat) (hz0 : Out4 z0) (x : α) :
+    ∀ f, CTIRRefinePointB.fuelInvert Fsq Fmul ≤ f →
+      runV prog G X f f_fiat_SM2Element_Invert [elemV z0, elemV (enc x)]
+        = .ret [elemV (enc (Model.Field.invert C.F x)), elemV (enc (Model.Field.invert C.F x))] :=
+  CTIRRefinePointB.ir_Invert hp.enc_out4 hp.square hp.mul hchain hregs z0 hz0 x
+
+/-- **(*SM2Point).GetAffineX = `Model.Point.getAffineX`**; `hX`: the external `big.Int.SetBytes` (external 7) returns
+    the value of the big-endian byte string -/
+theorem ir_GetAffineX_closed (hp : FiatPrims prog G X C.F enc Fmul Fsq Fadd Fsub Fopp Fone)
+    (ha : AffineOk G X C enc Fm Ft)
+    (hX : ∀ b : Bytes, X 7 [bytesV b] = [.int ((Bytes.toNatBE b : Nat) : Int)]) (p : Model.Point.Pt α) :
+    ∀ f, CTIRRefinePointB.fuelGetAffineX Fsq Fmul Fm Ft ≤ f →
+      runV prog G X f f_internal_SM2Point_GetAffineX [ptV enc p] = .ret [.int ((Model.Point.getAffineX C p : Nat) : Int)] :=
+  CTIRRefinePointB.ir_GetAffineX hp.enc_out4 hp.square hp.mul ha.chain ha.chainRegs ha.bytes ha.zeroEnc hX p
+
+/-- **(*SM2Point).Bytes = `Model.Point.bytes C p true`** (the constant-time variant) -/
+theorem ir_PointBytes_closed (hp : FiatPrims prog G X C.F enc Fmul Fsq Fadd Fsub Fopp Fone)
+    (ha : AffineOk G X C enc Fm Ft) (p : Model.Point.Pt α) :
+    ∀ f, CTIRRefinePointB.fuelPointBytes Fsq Fmul Fm Ft ≤ f →
+      runV prog G X f f_internal_SM2Point_Bytes [ptV enc p] = .ret [bytesV (Model.Point.bytes C p true)] :=
+  CTIRRefinePointB.ir_PointBytes hp.enc_out4 hp.square hp.mul ha.chain ha.chainRegs ha.bytes ha.zeroEnc p
+
 end Part1
 
 
-/-! ## 2. The point layer from the weaker bundle `FiatPrimsW` (destinations `Out4`)
-
-  `FiatPrimsW` is PointA's `FiatPrims` with `Out4 o →` instead of `o.length = 4 →` (this is what CTIRRefineFiat
-  proves) and `Out4 (enc e)` instead of `(enc e).length = 4`.  `slp_stepW` / `slp_foldW` are PointA's `slp_step` /
-  `slp_fold` for `OpsOkW`; the receivers that occur are `[0,0,0,0]` (`mkE`) and `enc _`.  Everything else (the
-  statement lists, the side-condition checker `slpOk`, `inv_write`, `tail_ok`, the wrappers on raw limbs) is PointA's. -/
-
-/-- HYPOTHESES: the six straight-line Fiat primitives compute the operations of `F` on the encodings, for every
-    destination of four limbs below 2^64 -/
-structure FiatPrimsW {α : Type} (P : Prog) (G : Nat → Val) (X : Oracle) (F : Model.Field.FieldOps α) (enc : α → List Nat)
-    (Fmul Fsq Fadd Fsub Fopp Fone : Nat) : Prop where
-  enc_out4 : ∀ e, Out4 (enc e)
-  mul : ∀ (o : List Nat) (a b : α), Out4 o →
-    Computes P G X f_fiat_sm2Mul Fmul [limbsV o, limbsV (enc a), limbsV (enc b)] [limbsV (enc (F.mul a b))]
-  square : ∀ (o : List Nat) (a : α), Out4 o →
-    Computes P G X f_fiat_sm2Square Fsq [limbsV o, limbsV (enc a)] [limbsV (enc (F.square a))]
-  add : ∀ (o : List Nat) (a b : α), Out4 o →
-    Computes P G X f_fiat_sm2Add Fadd [limbsV o, limbsV (enc a), limbsV (enc b)] [limbsV (enc (F.add a b))]
-  sub : ∀ (o : List Nat) (a b : α), Out4 o →
-    Computes P G X f_fiat_sm2Sub Fsub [limbsV o, limbsV (enc a), limbsV (enc b)] [limbsV (enc (F.sub a b))]
-  opp : ∀ (o : List Nat) (a : α), Out4 o →
-    Computes P G X f_fiat_sm2Opp Fopp [limbsV o, limbsV (enc a)] [limbsV (enc (F.opp a))]
-  one : ∀ (o : List Nat), Out4 o →
-    Computes P G X f_fiat_sm2SetOne Fone [limbsV o] [limbsV (enc F.setOne)]
-
-/-- PointA's bundle implies the weaker one (given that encodings are `Out4`) -/
-theorem FiatPrims.toW {α : Type} {P : Prog} {G : Nat → Val} {X : Oracle} {F : Model.Field.FieldOps α} {enc : α → List Nat}
-    {Fmul Fsq Fadd Fsub Fopp Fone : Nat} (hp : FiatPrims P G X F enc Fmul Fsq Fadd Fsub Fopp Fone)
-    (ho : ∀ e, Out4 (enc e)) : FiatPrimsW P G X F enc Fmul Fsq Fadd Fsub Fopp Fone :=
-  ⟨ho, fun o a b h => hp.mul o a b h.length, fun o a h => hp.square o a h.length, fun o a b h => hp.add o a b h.length,
-    fun o a b h => hp.sub o a b h.length, fun o a h => hp.opp o a h.length, fun o h => hp.one o h.length⟩
-
-section WrappersW
-variable {α : Type} {P : Prog} {G : Nat → Val} {X : Oracle} {F : Model.Field.FieldOps α} {enc : α → List Nat}
-  {Fmul Fsq Fadd Fsub Fopp Fone : Nat}
-
-/-- **(*SM2Element).Mul** = `F.mul`; the receiver holds any `Out4` limbs -/
-theorem Mul_computesW (hw : HasPointFns P) (hp : FiatPrimsW P G X F enc Fmul Fsq Fadd Fsub Fopp Fone)
-    (o : List Nat) (ho : Out4 o) (a b : α) :
-    Computes P G X f_fiat_SM2Element_Mul (fuelW Fmul) [elemV o, elemV (enc a), elemV (enc b)]
-      [elemV (enc (F.mul a b)), elemV (enc (F.mul a b))] :=
-  wrap3_computes (by rw [← fn_22_eq]; exact hw.h22) _ _ _ _ (hp.mul o a b ho)
-
-theorem Add_computesW (hw : HasPointFns P) (hp : FiatPrimsW P G X F enc Fmul Fsq Fadd Fsub Fopp Fone)
-    (o : List Nat) (ho : Out4 o) (a b : α) :
-    Computes P G X f_fiat_SM2Element_Add (fuelW Fadd) [elemV o, elemV (enc a), elemV (enc b)]
-      [elemV (enc (F.add a b)), elemV (enc (F.add a b))] :=
-  wrap3_computes (by rw [← fn_16_eq]; exact hw.h16) _ _ _ _ (hp.add o a b ho)
-
-theorem Sub_computesW (hw : HasPointFns P) (hp : FiatPrimsW P G X F enc Fmul Fsq Fadd Fsub Fopp Fone)
-    (o : List Nat) (ho : Out4 o) (a b : α) :
-    Computes P G X f_fiat_SM2Element_Sub (fuelW Fsub) [elemV o, elemV (enc a), elemV (enc b)]
-      [elemV (enc (F.sub a b)), elemV (enc (F.sub a b))] :=
-  wrap3_computes (by rw [← fn_18_eq]; exact hw.h18) _ _ _ _ (hp.sub o a b ho)
-
-theorem Square_computesW (hw : HasPointFns P) (hp : FiatPrimsW P G X F enc Fmul Fsq Fadd Fsub Fopp Fone)
-    (o : List Nat) (ho : Out4 o) (a : α) :
-    Computes P G X f_fiat_SM2Element_Square (fuelW Fsq) [elemV o, elemV (enc a)]
-      [elemV (enc (F.square a)), elemV (enc (F.square a))] :=
-  wrap2_computes (by rw [← fn_24_eq]; exact hw.h24) _ _ _ (hp.square o a ho)
-
-theorem Opp_computesW (hw : HasPointFns P) (hp : FiatPrimsW P G X F enc Fmul Fsq Fadd Fsub Fopp Fone)
-    (o : List Nat) (ho : Out4 o) (a : α) :
-    Computes P G X f_fiat_SM2Element_Opp (fuelW Fopp) [elemV o, elemV (enc a)]
-      [elemV (enc (F.opp a)), elemV (enc (F.opp a))] :=
-  wrap2_computes (by rw [← fn_20_eq]; exact hw.h20) _ _ _ (hp.opp o a ho)
-
-theorem One_computesW (hw : HasPointFns P) (hp : FiatPrimsW P G X F enc Fmul Fsq Fadd Fsub Fopp Fone)
-    (o : List Nat) (ho : Out4 o) :
-    Computes P G X f_fiat_SM2Element_One (fuelW Fone) [elemV o] [elemV (enc F.setOne), elemV (enc F.setOne)] :=
-  wrap1_computes (by rw [← fn_13_eq]; exact hw.h13) _ _ (hp.one o ho)
-
-end WrappersW
-
-section SLPW
-variable {α : Type}
-
-/-- PointA's `OpsOk` with `Out4` receivers -/
-structure OpsOkW (P : Prog) (G : Nat → Val) (X : Oracle) (ops : Model.SLP.Ops α) (enc : α → List Nat)
-    (wr fu : Model.SLP.OpK → Nat) : Prop where
-  enc_out4 : ∀ e, Out4 (enc e)
-  op : ∀ (k : Model.SLP.OpK) (o : List Nat) (a b : α), Out4 o →
-    Computes P G X (wr k) (fu k) (elemV o :: opArgVals k (elemV (enc a)) (elemV (enc b)))
-      [elemV (enc (opVal ops k a b)), elemV (enc (opVal ops k a b))]
-
-variable {P : Prog} {G : Nat → Val} {X : Oracle} {ops : Model.SLP.Ops α} {enc : α → List Nat}
-  {wr fu : Model.SLP.OpK → Nat} {reg : String → Loc} {np sc : Nat}
-
-/-- one instruction (PointA's `slp_step` for `OpsOkW`) -/
-theorem slp_stepW (hops : OpsOkW P G X ops enc wr fu) {env0 env : Env} {senv : Model.SLP.Env α}
-    (s : Model.SLP.Instr × Option Nat) (hinv : SInv G reg enc ops.zero np env0 env senv)
-    (hok : stepOk reg np sc (senv.map Prod.fst) s = true) :
-    ∃ env', Pre P G X (fu s.1.op + 4) env (stepStmts reg wr sc s) env' ∧
-      SInv G reg enc ops.zero np env0 env' (Model.SLP.step ops senv s.1) := by
-  obtain ⟨i, fr⟩ := s
-  rw [step_eq]
-  generalize hx : Model.SLP.Env.get ops.zero senv i.a = x
-  generalize hy : Model.SLP.Env.get ops.zero senv i.b = y
-  cases fr with
-  | some t =>
-    simp only [stepOk, Bool.and_eq_true] at hok
-    obtain ⟨⟨⟨hvar, hla⟩, hlb⟩, hlive, hnp⟩ := hok
-    obtain ⟨d, hd⟩ : ∃ d, reg i.dst = .var d := by
-      cases h : reg i.dst with
-      | var d => exact ⟨d, rfl⟩
-      | fld p k => rw [h] at hvar; simp [Loc.isVar] at hvar
-      | glob k => rw [h] at hvar; simp [Loc.isVar] at hvar
-    have hvo : (reg i.dst).varOf = d := by rw [hd]; rfl
-    have hA : evalV G env (reg i.a).expr = some (elemV (enc x)) := by
-      rw [← hx]; exact hinv.regs i.a (by simpa using hla)
-    have hB : evalV G env (reg i.b).expr = some (elemV (enc y)) := by
-      rw [← hy]; exact hinv.regs i.b (by simpa using hlb)
-    generalize hR : elemV (enc (opVal ops i.op x y)) = R
-    have hcomp := hops.op i.op [0, 0, 0, 0] x y out4_zero
-    rw [hR] at hcomp
-    have c1 : EvIn P G X (fu i.op + 1) env (.call [sc, t] (wr i.op) (mkE :: opArgs reg i)) ((env.set sc R).set t R) .norm :=
-      hcomp.call (evalVs_opArgs (evalV_mkE _) hA hB) rfl
-    have c2 : EvIn P G X 1 ((env.set sc R).set t R) (.assign d [] (.var t)) (((env.set sc R).set t R).set d R) .norm :=
-      EvIn.assign (by rw [evalV_var, Env.set_same])
-    refine ⟨((env.set sc R).set t R).set d R, ?_, ?_⟩
-    · simp only [stepStmts, hvo]
-      exact (Pre.cons c1 (Pre.cons c2 (Pre.nil _))).mono (by omega)
-    · rw [hvo] at hlive hnp
-      refine inv_write (ws := [d, sc, t]) hinv ?_ hlive hnp ?_
-      · intro z hz
-        simp only [List.mem_cons, List.not_mem_nil, or_false, not_or] at hz
-        rw [Env.set_other _ _ hz.1, Env.set_other _ _ hz.2.2, Env.set_other _ _ hz.2.1]
-      · rw [hd, ← hR]
-        simp only [Loc.expr, evalV_var, Env.set_same, hR]
-  | none =>
-    simp only [stepOk, Bool.and_eq_true] at hok
-    obtain ⟨⟨⟨hvar, hla⟩, hlb⟩, hld, hlive, hnp⟩ := hok
-    obtain ⟨d, hd⟩ : ∃ d, reg i.dst = .var d := by
-      cases h : reg i.dst with
-      | var d => exact ⟨d, rfl⟩
-      | fld p k => rw [h] at hvar; simp [Loc.isVar] at hvar
-      | glob k => rw [h] at hvar; simp [Loc.isVar] at hvar
-    have hvo : (reg i.dst).varOf = d := by rw [hd]; rfl
-    have hA : evalV G env (reg i.a).expr = some (elemV (enc x)) := by
-      rw [← hx]; exact hinv.regs i.a (by simpa using hla)
-    have hB : evalV G env (reg i.b).expr = some (elemV (enc y)) := by
-      rw [← hy]; exact hinv.regs i.b (by simpa using hlb)
-    have hD : evalV G env (.var d) = some (elemV (enc (Model.SLP.Env.get ops.zero senv i.dst))) := by
-      have := hinv.regs i.dst (by simpa using hld)
-      rw [hd] at this
-      exact this
-    generalize hR : elemV (enc (opVal ops i.op x y)) = R
-    have hcomp := hops.op i.op (enc (Model.SLP.Env.get ops.zero senv i.dst)) x y (hops.enc_out4 _)
-    rw [hR] at hcomp
-    have c1 : EvIn P G X (fu i.op + 1) env (.call [d, sc] (wr i.op) (.var d :: opArgs reg i)) ((env.set d R).set sc R) .norm :=
-      hcomp.call (evalVs_opArgs hD hA hB) rfl
-    refine ⟨(env.set d R).set sc R, ?_, ?_⟩
-    · simp only [stepStmts, hvo]
-      exact (Pre.cons c1 (Pre.nil _)).mono (by omega)
-    · rw [hvo] at hlive hnp
-      refine inv_write (ws := [d, sc]) hinv ?_ hlive hnp ?_
-      · intro z hz
-        simp only [List.mem_cons, List.not_mem_nil, or_false, not_or] at hz
-        rw [Env.set_other _ _ hz.2, Env.set_other _ _ hz.1]
-      · rw [hd]
-        simp only [Loc.expr, evalV_var]
-        by_cases h : d = sc
-        · subst h; rw [Env.set_same, hR]
-        · rw [Env.set_other _ _ h, Env.set_same, hR]
-
-/-- the generic lemma (PointA's `slp_fold` for `OpsOkW`) -/
-theorem slp_foldW (hops : OpsOkW P G X ops enc wr fu) {env0 : Env} : ∀ (ss : List (Model.SLP.Instr × Option Nat))
-    (env : Env) (senv : Model.SLP.Env α), SInv G reg enc ops.zero np env0 env senv →
-    slpOk reg np sc (senv.map Prod.fst) ss = true →
-    ∃ env', Pre P G X (slpFuel fu ss) env (slpStmts reg wr sc ss) env' ∧
-      SInv G reg enc ops.zero np env0 env' (Model.SLP.eval ops (ss.map Prod.fst) senv) := by
-  intro ss
-  induction ss with
-  | nil => intro env senv hinv _; exact ⟨env, Pre.nil _, hinv⟩
-  | cons s ss ih =>
-    intro env senv hinv hok
-    simp only [slpOk, Bool.and_eq_true] at hok
-    obtain ⟨env1, p1, hinv1⟩ := slp_stepW (wr := wr) (sc := sc) hops s hinv hok.1
-    have hk : (Model.SLP.step ops senv s.1).map Prod.fst = s.1.dst :: senv.map Prod.fst := rfl
-    obtain ⟨env2, p2, hinv2⟩ := ih env1 _ hinv1 (by rw [hk]; exact hok.2)
-    exact ⟨env2, Pre.append p1 p2, hinv2⟩
-
-end SLPW
-
-theorem opsOkW_of_prims {α : Type} {P : Prog} {G : Nat → Val} {X : Oracle} {F : Model.Field.FieldOps α} {enc : α → List Nat}
-    {Fmul Fsq Fadd Fsub Fopp Fone : Nat} (hw : HasPointFns P) (hp : FiatPrimsW P G X F enc Fmul Fsq Fadd Fsub Fopp Fone) :
-    OpsOkW P G X (Model.Point.slpOps F) enc wrOf (fuOf Fmul Fadd Fsub Fsq) := by
-  refine ⟨hp.enc_out4, ?_⟩
-  intro k o a b ho
-  cases k
-  · exact Mul_computesW hw hp o ho a b
-  · exact Add_computesW hw hp o ho a b
-  · exact Sub_computesW hw hp o ho a b
-  · exact Square_computesW hw hp o ho a
-
-section PointW
-variable {α : Type} {P : Prog} {G : Nat → Val} {X : Oracle} {enc : α → List Nat} {C : Model.Point.Ctx α}
-  {Fmul Fsq Fadd Fsub Fopp Fone : Nat}
-
-/-- **NewSM2Point** = `Model.Point.infinity` (PointA's proof, the receiver of `One` is `[0,0,0,0]`) -/
-theorem NewSM2Point_computesW (hw : HasPointFns P) (hp : FiatPrimsW P G X C.F enc Fmul Fsq Fadd Fsub Fopp Fone)
-    (hz : enc C.F.zero = [0, 0, 0, 0]) :
-    Computes P G X f_internal_NewSM2Point (fuelW Fone + 4) [] [ptV enc (Model.Point.infinity C)] := by
-  let e0 : Env := Env.ofList []
-  let e1 := (e0.set 0 (elemV (enc C.F.setOne))).set 1 (elemV (enc C.F.setOne))
-  have c1 : EvIn P G X (fuelW Fone + 1) e0 (.call [0, 1] 13 [mkE]) e1 .norm := by
-    refine (One_computesW hw hp [0, 0, 0, 0] out4_zero).call ?_ rfl
-    simp only [evalVs_cons, evalVs_nil, evalV_mkE]
-  have sr : evalVs G e1 [(.cat (.mk (.lit 1) mkE) (.cat (.mk (.lit 1) (.var 1)) (.mk (.lit 1) mkE)))]
-      = some [ptV enc (Model.Point.infinity C)] := by
-    have q := evalV_mkPoint (G := G) (env := e1) (ea := mkE) (eb := .var 1) (ec := mkE) (a := elemV [0, 0, 0, 0])
-      (b := elemV (enc C.F.setOne)) (c := elemV [0, 0, 0, 0]) (evalV_mkE _) (by simp [e1, Env.set]) (evalV_mkE _)
-    simp only [evalVs_cons, evalVs_nil, q, ptV, Model.Point.infinity, hz]
-  refine Computes.of_body hw.h73 rfl rfl (env' := e1) ?_
-  rw [fn_73_body]
-  exact ((Pre.cons c1 (Pre.nil _) _).1 _ _ _ (EvIn.seq_stop (EvIn.ret sr) (by simp))).mono (by omega)
-
-/-- **NewFromXY** = `Model.Point.fromXY`, for limbs that the encoding reproduces -/
-theorem NewFromXY_computesW (hw : HasPointFns P) (hp : FiatPrimsW P G X C.F enc Fmul Fsq Fadd Fsub Fopp Fone)
-    (x y : List Nat) (hx : x.length = 4) (hy : y.length = 4) (hrx : enc (C.F.ofRaw x) = x) (hry : enc (C.F.ofRaw y) = y) :
-    Computes P G X f_internal_NewFromXY (fuelW Fone + 20) [limbsV x, limbsV y] [ptV enc (Model.Point.fromXY C x y)] := by
-  have := NewFromXY_raw (P := P) (G := G) (X := X) hw x y (enc C.F.setOne) hx hy (One_computesW hw hp [0, 0, 0, 0] out4_zero)
-  simpa only [ptV, ptRawV, Model.Point.fromXY, hrx, hry] using this
-
-/-- **(*SM2Point).Negate** = `Model.Point.negate`; the `y` coordinate of the receiver holds `Out4` limbs -/
-theorem Negate_computesW (hw : HasPointFns P) (hp : FiatPrimsW P G X C.F enc Fmul Fsq Fadd Fsub Fopp Fone)
-    (qa qb qc : List Nat) (hqb : Out4 qb) (p : Model.Point.Pt α) :
-    Computes P G X f_internal_SM2Point_Negate (fuelW Fopp + 22) [ptRawV qa qb qc, ptV enc p]
-      [ptV enc (Model.Point.negate C p), ptV enc (Model.Point.negate C p)] :=
-  Negate_raw hw qa qb qc (enc p.x) (enc p.y) (enc p.z) _ (Opp_computesW hw hp qb hqb p.y)
-
-/-- **(*SM2Point).Add** = `Model.Point.add` (PointA's proof over `slp_foldW`) -/
-theorem PointAdd_computesW (hw : HasPointFns P) (hp : FiatPrimsW P G X C.F enc Fmul Fsq Fadd Fsub Fopp Fone)
-    (hB : G 6 = elemV (enc C.b)) (hprog : C.addProg = Gen.PointSLP.add) (hout : C.addOut = Gen.PointSLP.add_out)
-    (qa qb qc : List Nat) (p1 p2 : Model.Point.Pt α) :
-    Computes P G X f_internal_SM2Point_Add (fuelPtAdd Fmul Fadd Fsub Fsq) [ptRawV qa qb qc, ptV enc p1, ptV enc p2]
-      [ptV enc (Model.Point.add C p1 p2), ptV enc (Model.Point.add C p1 p2)] := by
-  let e0 : Env := Env.ofList [ptRawV qa qb qc, ptV enc p1, ptV enc p2]
-  have h1 : e0 1 = .arr [elemV (enc p1.x), elemV (enc p1.y), elemV (enc p1.z)] := rfl
-  have h2 : e0 2 = .arr [elemV (enc p2.x), elemV (enc p2.y), elemV (enc p2.z)] := rfl
-  have hinv0 : SInv G addReg enc (Model.Point.slpOps C.F).zero 3 e0 e0 (addEnv0 C p1 p2) := by
-    refine ⟨?_, fun _ _ => rfl⟩
-    intro r hr
-    simp only [addEnv0, List.map_cons, List.map_nil, List.mem_cons, List.not_mem_nil, or_false] at hr
-    rcases hr with rfl | rfl | rfl | rfl | rfl | rfl | rfl
-    · exact CTIRRefinePointA.evalV_coord (G := G) h1 (k := 0) rfl
-    · exact CTIRRefinePointA.evalV_coord (G := G) h1 (k := 1) rfl
-    · exact CTIRRefinePointA.evalV_coord (G := G) h1 (k := 2) rfl
-    · exact CTIRRefinePointA.evalV_coord (G := G) h2 (k := 0) rfl
-    · exact CTIRRefinePointA.evalV_coord (G := G) h2 (k := 1) rfl
-    · exact CTIRRefinePointA.evalV_coord (G := G) h2 (k := 2) rfl
-    · exact (evalV_glob G e0 6).trans (congrArg some hB)
-  obtain ⟨e1, ppre, hinv1⟩ := slp_foldW (wr := wrOf) (sc := 3) (opsOkW_of_prims hw hp) addSteps e0 _ hinv0 add_check
-  generalize hfin : Model.SLP.eval (Model.Point.slpOps C.F) (addSteps.map Prod.fst) (addEnv0 C p1 p2) = fin at hinv1
-  have hkeys : fin.map Prod.fst = ((addSteps.map Prod.fst).map (·.dst)).reverse ++ (addEnv0 C p1 p2).map Prod.fst := by
-    rw [← hfin, eval_keys]
-  have hx : e1 15 = elemV (enc (Model.SLP.Env.get C.F.zero fin "x3")) :=
-    Option.some.inj (hinv1.regs "x3" (by rw [hkeys]; exact List.mem_append_left _ (by decide)))
-  have hy : e1 17 = elemV (enc (Model.SLP.Env.get C.F.zero fin "y3")) :=
-    Option.some.inj (hinv1.regs "y3" (by rw [hkeys]; exact List.mem_append_left _ (by decide)))
-  have hz : e1 19 = elemV (enc (Model.SLP.Env.get C.F.zero fin "z3")) :=
-    Option.some.inj (hinv1.regs "z3" (by rw [hkeys]; exact List.mem_append_left _ (by decide)))
-  have h0 : e1 0 = ptRawV qa qb qc := hinv1.frame 0 (by decide)
-  obtain ⟨e2, ptail, g⟩ := tail_ok (P := P) (G := G) (X := X) hw.h15 (sc := 3) (vx := 15) (vy := 17) (vz := 19) (t0 := 20) (t1 := 21)
-    (t2 := 22) h0 hx hy hz (by decide) (by decide) (by decide) (by decide) (by decide) (by decide)
-  have hres : ptV enc (Model.Point.add C p1 p2) = ptRawV (enc (Model.SLP.Env.get C.F.zero fin "x3"))
-      (enc (Model.SLP.Env.get C.F.zero fin "y3")) (enc (Model.SLP.Env.get C.F.zero fin "z3")) := by
-    rw [add_model C p1 p2 hprog hout, hfin]
-    rfl
-  rw [hres]
-  have sr : evalVs G e2 [(.var 0), (.var 0)] = some [e2 0, e2 0] := by
-    simp only [evalVs_cons, evalVs_nil, evalV_var]
-  rw [g] at sr
-  refine Computes.of_body hw.h78 rfl rfl (env' := e2) ?_
-  rw [fn_78_body]
-  exact ((Pre.append ppre ptail _).1 _ _ _ (EvIn.seq_stop (EvIn.ret sr) (by simp))).mono (by simp only [fuelPtAdd]; omega)
-
-/-- **(*SM2Point).Double** = `Model.Point.double` (PointA's proof over `slp_foldW`) -/
-theorem PointDouble_computesW (hw : HasPointFns P) (hp : FiatPrimsW P G X C.F enc Fmul Fsq Fadd Fsub Fopp Fone)
-    (hB : G 6 = elemV (enc C.b)) (hprog : C.dblProg = Gen.PointSLP.double) (hout : C.dblOut = Gen.PointSLP.double_out)
-    (qa qb qc : List Nat) (p : Model.Point.Pt α) :
-    Computes P G X f_internal_SM2Point_Double (fuelPtDouble Fmul Fadd Fsub Fsq) [ptRawV qa qb qc, ptV enc p]
-      [ptV enc (Model.Point.double C p), ptV enc (Model.Point.double C p)] := by
-  let e0 : Env := Env.ofList [ptRawV qa qb qc, ptV enc p]
-  have h1 : e0 1 = .arr [elemV (enc p.x), elemV (enc p.y), elemV (enc p.z)] := rfl
-  have hinv0 : SInv G dblReg enc (Model.Point.slpOps C.F).zero 2 e0 e0 (dblEnv0 C p) := by
-    refine ⟨?_, fun _ _ => rfl⟩
-    intro r hr
-    simp only [dblEnv0, List.map_cons, List.map_nil, List.mem_cons, List.not_mem_nil, or_false] at hr
-    rcases hr with rfl | rfl | rfl | rfl
-    · exact CTIRRefinePointA.evalV_coord (G := G) h1 (k := 0) rfl
-    · exact CTIRRefinePointA.evalV_coord (G := G) h1 (k := 1) rfl
-    · exact CTIRRefinePointA.evalV_coord (G := G) h1 (k := 2) rfl
-    · exact (evalV_glob G e0 6).trans (congrArg some hB)
-  obtain ⟨e1, ppre, hinv1⟩ := slp_foldW (wr := wrOf) (sc := 2) (opsOkW_of_prims hw hp) dblSteps e0 _ hinv0 dbl_check
-  generalize hfin : Model.SLP.eval (Model.Point.slpOps C.F) (dblSteps.map Prod.fst) (dblEnv0 C p) = fin at hinv1
-  have hkeys : fin.map Prod.fst = ((dblSteps.map Prod.fst).map (·.dst)).reverse ++ (dblEnv0 C p).map Prod.fst := by
-    rw [← hfin, eval_keys]
-  have hx : e1 16 = elemV (enc (Model.SLP.Env.get C.F.zero fin "x3")) :=
-    Option.some.inj (hinv1.regs "x3" (by rw [hkeys]; exact List.mem_append_left _ (by decide)))
-  have hy : e1 14 = elemV (enc (Model.SLP.Env.get C.F.zero fin "y3")) :=
-    Option.some.inj (hinv1.regs "y3" (by rw [hkeys]; exact List.mem_append_left _ (by decide)))
-  have hz : e1 12 = elemV (enc (Model.SLP.Env.get C.F.zero fin "z3")) :=
-    Option.some.inj (hinv1.regs "z3" (by rw [hkeys]; exact List.mem_append_left _ (by decide)))
-  have h0 : e1 0 = ptRawV qa qb qc := hinv1.frame 0 (by decide)
-  obtain ⟨e2, ptail, g⟩ := tail_ok (P := P) (G := G) (X := X) hw.h15 (sc := 2) (vx := 16) (vy := 14) (vz := 12) (t0 := 17) (t1 := 18)
-    (t2 := 19) h0 hx hy hz (by decide) (by decide) (by decide) (by decide) (by decide) (by decide)
-  have hres : ptV enc (Model.Point.double C p) = ptRawV (enc (Model.SLP.Env.get C.F.zero fin "x3"))
-      (enc (Model.SLP.Env.get C.F.zero fin "y3")) (enc (Model.SLP.Env.get C.F.zero fin "z3")) := by
-    rw [double_model C p hprog hout, hfin]
-    rfl
-  rw [hres]
-  have sr : evalVs G e2 [(.var 0), (.var 0)] = some [e2 0, e2 0] := by
-    simp only [evalVs_cons, evalVs_nil, evalV_var]
-  rw [g] at sr
-  refine Computes.of_body hw.h79 rfl rfl (env' := e2) ?_
-  rw [fn_79_body]
-  exact ((Pre.append ppre ptail _).1 _ _ _ (EvIn.seq_stop (EvIn.ret sr) (by simp))).mono (by simp only [fuelPtDouble]; omega)
-
-end PointW
-
-section Part1W
-variable {α : Type} {G : Nat → Val} {X : Oracle} {C : Model.Point.Ctx α} {enc : α → List Nat}
-  {Fmul Fsq Fadd Fsub Fopp Fone : Nat}
-
-/-- NewSM2Point, Double, Add, Set of `prog` from the weaker bundle -/
-theorem pointFns_of_primsW (hp : FiatPrimsW prog G X C.F enc Fmul Fsq Fadd Fsub Fopp Fone) (hc : CtxOk G C enc) :
-    PointFns G X C enc (fuelNew Fone) (fuelPtDouble Fmul Fadd Fsub Fsq) (fuelPtAdd Fmul Fadd Fsub Fsq) fuelSet where
-  new := computes_comb (NewSM2Point_computesW prog_hasPointFns hp hc.zero)
-  dbl := fun q a => computes_comb
-    (PointDouble_computesW prog_hasPointFns hp hc.b hc.dblProg hc.dblOut (enc q.x) (enc q.y) (enc q.z) a)
-  add := fun q a b => computes_comb
-    (PointAdd_computesW prog_hasPointFns hp hc.b hc.addProg hc.addOut (enc q.x) (enc q.y) (enc q.z) a b)
-  set := fun q a => computes_comb
-    (PointSet_computes prog_hasPointFns (enc q.x) (enc q.y) (enc q.z) (enc a.x) (enc a.y) (enc a.z))
-
-/-- **ScalarMult = `Model.Curve.scalarMult (pointOps C)`** from `FiatPrimsW` -/
-theorem ir_scalarMult_eq_model_closedW (hp : FiatPrimsW prog G X C.F enc Fmul Fsq Fadd Fsub Fopp Fone) (hc : CtxOk G C enc)
-    (Pt : Model.Point.Pt α) (scalar : Bytes) (hlen : scalar.length < 2 ^ 63) :
-    match Model.Curve.scalarMult (pointOps C) Pt scalar with
-    | .ok r => ∀ f, fuelScalarMult scalar.length Fmul Fsq Fadd Fsub Fone ≤ f →
-        runV prog G X f f_internal_ScalarMult [ptV enc Pt, bytesV scalar] = .ret [ptV enc r, .int 0]
-    | .panic =>
-        (∃ F, ∀ f, F ≤ f → runV prog G X f f_internal_ScalarMult [ptV enc Pt, bytesV scalar] = .panic) ∨
-        (∀ f, runV prog G X f f_internal_ScalarMult [ptV enc Pt, bytesV scalar] = .stuck)
-    | .err => False :=
-  ir_scalarMult_of_pointFns hc (pointFns_of_primsW hp hc) Pt scalar hlen
-
-/-- **scalarBaseMult_SkipBitExtration = `Model.Curve.scalarBaseMult (pointOps C)`** from `FiatPrimsW` -/
-theorem ir_scalarBaseMult_eq_model_closedW {W : Nat} (hp : FiatPrimsW prog G X C.F enc Fmul Fsq Fadd Fsub Fopp Fone)
-    (hc : CtxOk G C enc) (k : Bytes) (first : List Table) (second : Table)
-    (window subTableCount iterations remainder : Nat)
-    (hW : W < 9223372036854775808)
-    (hT : ∀ tbl w, CTIRRefineComb.SelUsed ⟨k, first, second, window, subTableCount, iterations, remainder⟩ tbl w →
-      (tbl.getD 0 []).length = w → w ≤ W ∧ TableOk tbl false w)
-    (hX : ∃ v, X 10 [.int (k.length : Int), .int 32] = [v])
-    (hprod : window * subTableCount * iterations + remainder < 2 ^ 63)
-    (hlen : subTableCount ≤ first.length) (hsec : 1 ≤ remainder → second ≠ []) :
-    match Model.Curve.scalarBaseMult (pointOps C) k first second window subTableCount iterations remainder with
-    | .ok r => ∀ f, fuelScalarBaseMult window subTableCount iterations W Fmul Fsq Fadd Fsub Fone ≤ f →
-        runV prog G X f f_internal_scalarBaseMult_SkipBitExtration
-          [bytesV k, .arr (first.map CTIRRefineComb.encT), CTIRRefineComb.encT second, .int (window : Int), .int (subTableCount : Int),
-            .int (iterations : Int), .int (remainder : Int)] = .ret [ptV enc r, .int 0]
-    | .err => ∀ f, 20 ≤ f →
-        runV prog G X f f_internal_scalarBaseMult_SkipBitExtration
-          [bytesV k, .arr (first.map CTIRRefineComb.encT), CTIRRefineComb.encT second, .int (window : Int), .int (subTableCount : Int),
-            .int (iterations : Int), .int (remainder : Int)] = .ret [CTIRRefineComb.nilPointV, .int 1]
-    | .panic =>
-        (∃ F, ∀ f, F ≤ f → runV prog G X f f_internal_scalarBaseMult_SkipBitExtration
-          [bytesV k, .arr (first.map CTIRRefineComb.encT), CTIRRefineComb.encT second, .int (window : Int), .int (subTableCount : Int),
-            .int (iterations : Int), .int (remainder : Int)] = .panic) ∨
-        (∀ f, runV prog G X f f_internal_scalarBaseMult_SkipBitExtration
-          [bytesV k, .arr (first.map CTIRRefineComb.encT), CTIRRefineComb.encT second, .int (window : Int), .int (subTableCount : Int),
-            .int (iterations : Int), .int (remainder : Int)] = .stuck) :=
-  ir_scalarBaseMult_of_pointFns hc (pointFns_of_primsW hp hc) k first second window subTableCount iterations remainder
-    hW hT hX hprod hlen hsec
-
-end Part1W
-
-
-/-! ## 3. PART 2: the carrier of well-formed limb vectors and the generated Fiat functions on it
+/-! ## 2. PART 2: the carrier of well-formed limb vectors and the generated Fiat functions on it
 
   The bundles quantify over ALL elements of the carrier (`∀ e, Out4 (enc e)`), the generated functions of
   `Model.SM2.fiatP` live on `List Nat`: the carrier is the subtype `Limbs` of the lists of four limbs below 2^64, with
@@ -713,7 +386,7 @@ section Bundles4
 variable {G : Nat → Val} {X : Oracle}
 
 /-- **the six Fiat primitives of `prog` compute `fiatP4`** (CTIRRefineFiat), any globals, any oracle -/
-theorem fiatPrimsW4 : FiatPrimsW prog G X fiatP4 encL fuelFiat fuelFiat fuelFiat fuelFiat fuelFiat fuelFiat where
+theorem fiatPrims4 : FiatPrims prog G X fiatP4 encL fuelFiat fuelFiat fuelFiat fuelFiat fuelFiat fuelFiat where
   enc_out4 := fun e => e.2
   mul := fun o a b ho => (CTIRRefineFiat.ir_sm2Mul_eq_gen o a.val b.val ho a.2 b.2).1
   square := fun o a ho => (CTIRRefineFiat.ir_sm2Square_eq_gen o a.val ho a.2).1
@@ -779,7 +452,7 @@ theorem ctxOk4 : CtxOk globals pointCtx4 encL :=
   ⟨encOk4, rfl, globals_0, globals_6, rfl, rfl, rfl, rfl⟩
 
 
-/-! ## 4. PART 2: the fully closed corollaries (no `Computes` hypothesis)
+/-! ## 3. PART 2: the fully closed corollaries (no `Computes` hypothesis)
 
   `G = globals` (the generated globals), any oracle `X` (the schedules call one external, number 10, whose result
   must be a single value: `hX`), carrier `Limbs`, context `pointCtx4`.  Fuel: the fuel functions of section 1 at
@@ -791,7 +464,7 @@ variable {X : Oracle}
 /-- NewSM2Point, Double, Add, Set of `prog` compute the point operations of `pointCtx4`: no hypothesis -/
 theorem pointFns4 : PointFns globals X pointCtx4 encL (fuelNew fuelFiat) (fuelPtDouble fuelFiat fuelFiat fuelFiat fuelFiat)
     (fuelPtAdd fuelFiat fuelFiat fuelFiat fuelFiat) fuelSet :=
-  pointFns_of_primsW (C := pointCtx4) fiatPrimsW4 ctxOk4
+  pointFns_of_prims (X := X) (C := pointCtx4) fiatPrims4 ctxOk4
 
 /-- **ScalarMult of `prog` = `Model.Curve.scalarMult` over the generated Fiat functions** (`pointCtx4`), for every
     point on `Limbs` and every scalar of fewer than 2^63 bytes; fully closed -/
@@ -802,8 +475,13 @@ theorem ir_scalarMult_eq_model_fiat (Pt : Model.Point.Pt Limbs) (scalar : Bytes)
     | .panic =>
         (∃ F, ∀ f, F ≤ f → runV prog globals X f f_internal_ScalarMult [ptV encL Pt, bytesV scalar] = .panic) ∨
         (∀ f, runV prog globals X f f_internal_ScalarMult [ptV encL Pt, bytesV scalar] = .stuck)
-    | .err => False :=
-  ir_scalarMult_eq_model_closedW (C := pointCtx4) fiatPrimsW4 ctxOk4 Pt scalar hlen
+    | .err => False := by
+  -- (the two `match`es are compiled to different auxiliary matchers: go through the cases)
+  have key := ir_scalarMult_eq_model_closed (X := X) (C := pointCtx4) fiatPrims4 ctxOk4 Pt scalar hlen
+  cases h : Model.Curve.scalarMult (pointOps pointCtx4) Pt scalar with
+  | ok r => rw [h] at key; exact key
+  | err => rw [h] at key; exact key
+  | panic => rw [h] at key; exact key
 
 /-- **scalarBaseMult_SkipBitExtration of `prog` = `Model.Curve.scalarBaseMult` over the generated Fiat functions**,
     any tables and scheme; what remains are the table / domain side conditions of `ir_scalarBaseMult_pointOps` and the
@@ -831,9 +509,140 @@ theorem ir_scalarBaseMult_eq_model_fiat {W : Nat} (k : Bytes) (first : List Tabl
             .int (iterations : Int), .int (remainder : Int)] = .panic) ∨
         (∀ f, runV prog globals X f f_internal_scalarBaseMult_SkipBitExtration
           [bytesV k, .arr (first.map CTIRRefineComb.encT), CTIRRefineComb.encT second, .int (window : Int), .int (subTableCount : Int),
-            .int (iterations : Int), .int (remainder : Int)] = .stuck) :=
-  ir_scalarBaseMult_eq_model_closedW (C := pointCtx4) fiatPrimsW4 ctxOk4 k first second window subTableCount iterations
-    remainder hW hT hX hprod hlen hsec
+            .int (iterations : Int), .int (remainder : Int)] = .stuck) := by
+  have key := ir_scalarBaseMult_eq_model_closed (X := X) (W := W) (C := pointCtx4) fiatPrims4 ctxOk4 k first second window
+    subTableCount iterations remainder hW hT hX hprod hlen hsec
+  cases h : Model.Curve.scalarBaseMult (pointOps pointCtx4) k first second window subTableCount iterations remainder with
+  | ok r => rw [h] at key; exact key
+  | err => rw [h] at key; exact key
+  | panic => rw [h] at key; exact key
+
+/-- the hypotheses of the affine conversions hold for `pointCtx4` and the generated globals -/
+theorem affineOk4 : AffineOk globals X pointCtx4 encL fuelFiat fuelFiat :=
+  ⟨rfl, rfl, globals_2, bytesPrims4⟩
+
+/-- **(*SM2Element).Invert of `prog` = the generated addition chain over the generated sm2Square / sm2Mul**; fully closed -/
+theorem ir_Invert_fiat (z0 : List Nat) (hz0 : Out4 z0) (x : Limbs) :
+    ∀ f, CTIRRefinePointB.fuelInvert fuelFiat fuelFiat ≤ f →
+      runV prog globals X f f_fiat_SM2Element_Invert [elemV z0, elemV (encL x)]
+        = .ret [elemV (encL (Model.Field.invert fiatP4 x)), elemV (encL (Model.Field.invert fiatP4 x))] :=
+  ir_Invert_closed (X := X) (C := pointCtx4) fiatPrims4 rfl rfl z0 hz0 x
+
+/-- **(*SM2Point).GetAffineX of `prog` = `Model.Point.getAffineX pointCtx4`**; the only hypothesis is the meaning of the
+    external `big.Int.SetBytes` (external 7) -/
+theorem ir_GetAffineX_fiat (hX : ∀ b : Bytes, X 7 [bytesV b] = [.int ((Bytes.toNatBE b : Nat) : Int)])
+    (p : Model.Point.Pt Limbs) :
+    ∀ f, CTIRRefinePointB.fuelGetAffineX fuelFiat fuelFiat fuelFiat fuelFiat ≤ f →
+      runV prog globals X f f_internal_SM2Point_GetAffineX [ptV encL p]
+        = .ret [.int ((Model.Point.getAffineX pointCtx4 p : Nat) : Int)] :=
+  ir_GetAffineX_closed (X := X) (C := pointCtx4) fiatPrims4 affineOk4 hX p
+
+/-- **(*SM2Point).GetAffineX of `prog`** with the standard external world (`stdOracle`): no hypothesis -/
+theorem ir_GetAffineX_fiat_std (tape : Nat → Nat → Nat) (p : Model.Point.Pt Limbs) :
+    ∀ f, CTIRRefinePointB.fuelGetAffineX fuelFiat fuelFiat fuelFiat fuelFiat ≤ f →
+      runV prog globals (stdOracle extKinds tape) f f_internal_SM2Point_GetAffineX [ptV encL p]
+        = .ret [.int ((Model.Point.getAffineX pointCtx4 p : Nat) : Int)] :=
+  ir_GetAffineX_fiat (CTIRRefinePointB.stdOracle_setBytes tape) p
+
+/-- **(*SM2Point).Bytes of `prog` = `Model.Point.bytes pointCtx4 p true`**; no hypothesis -/
+theorem ir_PointBytes_fiat (p : Model.Point.Pt Limbs) :
+    ∀ f, CTIRRefinePointB.fuelPointBytes fuelFiat fuelFiat fuelFiat fuelFiat ≤ f →
+      runV prog globals X f f_internal_SM2Point_Bytes [ptV encL p] = .ret [bytesV (Model.Point.bytes pointCtx4 p true)] :=
+  ir_PointBytes_closed (X := X) (C := pointCtx4) fiatPrims4 affineOk4 p
+
+/-! ### The layers below, closed (one corollary per theorem of PointA / PointB / Field that had a Fiat hypothesis) -/
+
+/-- (*SM2Element).Mul / Square / Add / Sub / Opp / One of `prog` = the generated Fiat functions; receiver: any `Out4` limbs -/
+theorem ir_Mul_fiat (o : List Nat) (ho : Out4 o) (a b : Limbs) :
+    ∀ f, fuelW fuelFiat ≤ f → runV prog globals X f f_fiat_SM2Element_Mul [elemV o, elemV (encL a), elemV (encL b)]
+      = .ret [elemV (Gen.FiatP.sm2Mul a.val b.val), elemV (Gen.FiatP.sm2Mul a.val b.val)] :=
+  ir_Mul (X := X) fiatPrims4 o ho a b
+theorem ir_Square_fiat (o : List Nat) (ho : Out4 o) (a : Limbs) :
+    ∀ f, fuelW fuelFiat ≤ f → runV prog globals X f f_fiat_SM2Element_Square [elemV o, elemV (encL a)]
+      = .ret [elemV (Gen.FiatP.sm2Square a.val), elemV (Gen.FiatP.sm2Square a.val)] :=
+  ir_Square (X := X) fiatPrims4 o ho a
+theorem ir_Add_fiat (o : List Nat) (ho : Out4 o) (a b : Limbs) :
+    ∀ f, fuelW fuelFiat ≤ f → runV prog globals X f f_fiat_SM2Element_Add [elemV o, elemV (encL a), elemV (encL b)]
+      = .ret [elemV (Gen.FiatP.sm2Add a.val b.val), elemV (Gen.FiatP.sm2Add a.val b.val)] :=
+  ir_Add (X := X) fiatPrims4 o ho a b
+theorem ir_Sub_fiat (o : List Nat) (ho : Out4 o) (a b : Limbs) :
+    ∀ f, fuelW fuelFiat ≤ f → runV prog globals X f f_fiat_SM2Element_Sub [elemV o, elemV (encL a), elemV (encL b)]
+      = .ret [elemV (Gen.FiatP.sm2Sub a.val b.val), elemV (Gen.FiatP.sm2Sub a.val b.val)] :=
+  ir_Sub (X := X) fiatPrims4 o ho a b
+theorem ir_Opp_fiat (o : List Nat) (ho : Out4 o) (a : Limbs) :
+    ∀ f, fuelW fuelFiat ≤ f → runV prog globals X f f_fiat_SM2Element_Opp [elemV o, elemV (encL a)]
+      = .ret [elemV (Gen.FiatP.sm2Opp a.val), elemV (Gen.FiatP.sm2Opp a.val)] :=
+  ir_Opp (X := X) fiatPrims4 o ho a
+theorem ir_One_fiat (o : List Nat) (ho : Out4 o) :
+    ∀ f, fuelW fuelFiat ≤ f → runV prog globals X f f_fiat_SM2Element_One [elemV o]
+      = .ret [elemV Gen.FiatP.sm2SetOne, elemV Gen.FiatP.sm2SetOne] :=
+  ir_One (X := X) fiatPrims4 o ho
+
+/-- (*SM2Element).Bytes / IsZero / Equal of `prog` -/
+theorem ir_Bytes_fiat (x : Limbs) :
+    ∀ f, fuelBytes32 fuelFiat fuelFiat ≤ f →
+      runV prog globals X f f_fiat_SM2Element_Bytes [elemV (encL x)] = .ret [bytesV (Model.Field.bytes fiatP4 x)] :=
+  ir_Bytes (bytesPrims4 x)
+theorem ir_IsZero_fiat (x : Limbs) :
+    ∀ f, fuelIsZero fuelFiat fuelFiat ≤ f →
+      runV prog globals X f f_fiat_SM2Element_IsZero [elemV (encL x)] = .ret [.int ((Model.Field.isZero fiatP4 x : Nat) : Int)] :=
+  ir_IsZero (bytesPrims4 x) globals_2
+theorem ir_Equal_fiat (x t : Limbs) :
+    ∀ f, fuelEqual fuelFiat fuelFiat ≤ f →
+      runV prog globals X f f_fiat_SM2Element_Equal [elemV (encL x), elemV (encL t)]
+        = .ret [.int ((Model.Field.equal fiatP4 x t : Nat) : Int)] :=
+  ir_Equal (bytesPrims4 x) (bytesPrims4 t)
+
+theorem minusOne_length : (Model.Field.minusOneEncoding fiatP4).length = 32 := by
+  show (fiatP4.toBytesLE (fiatP4.fromMontgomery (fiatP4.sub fiatP4.zero fiatP4.setOne))).reverse.length = 32
+  rw [List.length_reverse]
+  exact length_toBytes (fiatP4.fromMontgomery (fiatP4.sub fiatP4.zero fiatP4.setOne)).2
+
+/-- **(*SM2Element).SetBytes of `prog` = `Model.Field.setBytes fiatP4`**, receiver with any `Out4` limbs, any input:
+    success stores the element, failure (length ≠ 32 or value above p - 1) leaves the receiver; the model never panics -/
+theorem ir_SetBytes_fiat (old : List Nat) (hold : Out4 old) (v : Bytes) :
+    (∀ e', Model.Field.setBytes fiatP4 v = .ok e' → ∀ f, fuelSetBytes fuelFiat fuelFiat ≤ f →
+      runV prog globals X f f_fiat_SM2Element_SetBytes [elemV old, bytesV v] = .ret [elemV (encL e'), elemV (encL e'), .int 0]) ∧
+    (Model.Field.setBytes fiatP4 v = .err → ∀ f, 404 ≤ f →
+      runV prog globals X f f_fiat_SM2Element_SetBytes [elemV old, bytesV v] = .ret [elemV old, elemV [0, 0, 0, 0], .int 1]) ∧
+    Model.Field.setBytes fiatP4 v ≠ .panic := by
+  refine ⟨fun e' h => ?_, fun h => ir_SetBytes_err globals_1 old v h,
+    setBytes_ne_panic fiatP4 v (by rw [minusOne_length]; exact Nat.le_refl _)⟩
+  have hv : v.length = 32 := by
+    apply Classical.byContradiction
+    intro hne
+    simp [Model.Field.setBytes, hne] at h
+  exact ir_SetBytes_ok globals_1 old v e' h (setBytesPrims4 old hold v hv)
+
+/-- NewSM2Point, NewFromXY, Negate, Add, Double of `prog` over `pointCtx4` -/
+theorem ir_NewSM2Point_fiat :
+    ∀ f, fuelNew fuelFiat ≤ f → runV prog globals X f f_internal_NewSM2Point [] = .ret [ptV encL (Model.Point.infinity pointCtx4)] :=
+  ir_NewSM2Point (X := X) (C := pointCtx4) fiatPrims4 rfl
+
+theorem ir_NewFromXY_fiat (x y : List Nat) (hx : Out4 x) (hy : Out4 y) :
+    ∀ f, fuelW fuelFiat + 20 ≤ f → runV prog globals X f f_internal_NewFromXY [limbsV x, limbsV y]
+      = .ret [ptV encL (Model.Point.fromXY pointCtx4 x y)] :=
+  ir_NewFromXY (X := X) (C := pointCtx4) fiatPrims4 x y hx.length hy.length (fiatP4_ofRaw_val x hx) (fiatP4_ofRaw_val y hy)
+
+theorem ir_Negate_fiat (qa qb qc : List Nat) (hqb : Out4 qb) (p : Model.Point.Pt Limbs) :
+    ∀ f, fuelW fuelFiat + 22 ≤ f → runV prog globals X f f_internal_SM2Point_Negate [ptRawV qa qb qc, ptV encL p]
+      = .ret [ptV encL (Model.Point.negate pointCtx4 p), ptV encL (Model.Point.negate pointCtx4 p)] :=
+  ir_Negate (X := X) (C := pointCtx4) fiatPrims4 qa qb qc hqb p
+
+/-- **(*SM2Point).Add of `prog` = `Model.Point.add pointCtx4`**: the complete addition formula (the generated
+    straight-line program) over the generated Fiat functions; the receiver holds any point -/
+theorem ir_PointAdd_fiat (qa qb qc : List Nat) (p1 p2 : Model.Point.Pt Limbs) :
+    ∀ f, fuelPtAdd fuelFiat fuelFiat fuelFiat fuelFiat ≤ f →
+      runV prog globals X f f_internal_SM2Point_Add [ptRawV qa qb qc, ptV encL p1, ptV encL p2]
+        = .ret [ptV encL (Model.Point.add pointCtx4 p1 p2), ptV encL (Model.Point.add pointCtx4 p1 p2)] :=
+  ir_PointAdd (X := X) (C := pointCtx4) fiatPrims4 globals_6 rfl rfl qa qb qc p1 p2
+
+/-- **(*SM2Point).Double of `prog` = `Model.Point.double pointCtx4`** -/
+theorem ir_PointDouble_fiat (qa qb qc : List Nat) (p : Model.Point.Pt Limbs) :
+    ∀ f, fuelPtDouble fuelFiat fuelFiat fuelFiat fuelFiat ≤ f →
+      runV prog globals X f f_internal_SM2Point_Double [ptRawV qa qb qc, ptV encL p]
+        = .ret [ptV encL (Model.Point.double pointCtx4 p), ptV encL (Model.Point.double pointCtx4 p)] :=
+  ir_PointDouble (X := X) (C := pointCtx4) fiatPrims4 globals_6 rfl rfl qa qb qc p
 
 end Closed4
 
@@ -916,11 +725,394 @@ theorem ir_scalarBaseMult_6_3_14_fiat {X : Oracle} (k : Bytes) (hX : ∃ v, X 10
 theorem globals_7 : globals 7 = .arr (Gen.SM2Tables.sm2Precomputed_6_3_14.map CTIRRefineComb.encT) := rfl
 theorem globals_8 : globals 8 = CTIRRefineComb.encT Gen.SM2Tables.sm2Precomputed_6_3_14_Remainder := rfl
 
+
+
+/-! ### The standard external world
+
+  `stdOracle extKinds tape` (SMGo/Model/CTIR.lean, the executable model of the external calls of `prog`) satisfies
+  the two hypotheses on `X`: external 10 (`fmt.Errorf`) returns `[1]`, external 7 (`big.Int.SetBytes`) the value of the
+  bytes (`CTIRRefinePointB.stdOracle_setBytes`).  So the `_std` corollaries have no hypothesis besides the domain. -/
+
+theorem stdOracle_errorf (tape : Nat → Nat → Nat) (args : List Val) : stdOracle extKinds tape 10 args = [.int 1] := rfl
+
+/-- **the fixed-base multiplication of the Go code, standard external world: NO hypothesis** -/
+theorem ir_scalarBaseMult_6_3_14_fiat_std (tape : Nat → Nat → Nat) (k : Bytes) :
+    match Model.Curve.scalarBaseMult (pointOps pointCtx4) k Gen.SM2Tables.sm2Precomputed_6_3_14
+        Gen.SM2Tables.sm2Precomputed_6_3_14_Remainder 6 3 14 4 with
+    | .ok r => ∀ f, fuelScalarBaseMult 6 3 14 63 fuelFiat fuelFiat fuelFiat fuelFiat fuelFiat ≤ f →
+        runV prog globals (stdOracle extKinds tape) f f_internal_scalarBaseMult_SkipBitExtration
+          [bytesV k, globals 7, globals 8, .int 6, .int 3, .int 14, .int 4] = .ret [ptV encL r, .int 0]
+    | .err => ∀ f, 20 ≤ f →
+        runV prog globals (stdOracle extKinds tape) f f_internal_scalarBaseMult_SkipBitExtration
+          [bytesV k, globals 7, globals 8, .int 6, .int 3, .int 14, .int 4] = .ret [CTIRRefineComb.nilPointV, .int 1]
+    | .panic =>
+        (∃ F, ∀ f, F ≤ f → runV prog globals (stdOracle extKinds tape) f f_internal_scalarBaseMult_SkipBitExtration
+          [bytesV k, globals 7, globals 8, .int 6, .int 3, .int 14, .int 4] = .panic) ∨
+        (∀ f, runV prog globals (stdOracle extKinds tape) f f_internal_scalarBaseMult_SkipBitExtration
+          [bytesV k, globals 7, globals 8, .int 6, .int 3, .int 14, .int 4] = .stuck) := by
+  have key := ir_scalarBaseMult_6_3_14_fiat (X := stdOracle extKinds tape) k ⟨_, stdOracle_errorf tape _⟩
+  rw [globals_7, globals_8]
+  cases h : Model.Curve.scalarBaseMult (pointOps pointCtx4) k Gen.SM2Tables.sm2Precomputed_6_3_14
+      Gen.SM2Tables.sm2Precomputed_6_3_14_Remainder 6 3 14 4 with
+  | ok r => rw [h] at key; exact key
+  | err => rw [h] at key; exact key
+  | panic => rw [h] at key; exact key
+
+/-- the fuels of the closed statements, as numbers -/
+theorem fuelScalarBaseMult_6_3_14 :
+    fuelScalarBaseMult 6 3 14 63 fuelFiat fuelFiat fuelFiat fuelFiat fuelFiat = 2278031 := by decide
+theorem fuelScalarMult_32 : fuelScalarMult 32 fuelFiat fuelFiat fuelFiat fuelFiat fuelFiat = 11097949 := by decide
+theorem fuelInvert_fiat : CTIRRefinePointB.fuelInvert fuelFiat fuelFiat = 242954 := by decide
+theorem fuelGetAffineX_fiat : CTIRRefinePointB.fuelGetAffineX fuelFiat fuelFiat fuelFiat fuelFiat = 247858 := by decide
+theorem fuelPointBytes_fiat : CTIRRefinePointB.fuelPointBytes fuelFiat fuelFiat fuelFiat fuelFiat = 250766 := by decide
+
+/-! ## 4. Transfer to `Model.SM2.pointCtxFiat` (carrier `List Nat`)
+
+  `pointCtx4` is `Model.SM2.pointCtxFiat` on the sub-carrier `Limbs`: every operation commutes with `Subtype.val`
+  (`valPt`), hence (generic simulation lemmas `scalarMult_rel`, `scalarBaseMult_rel` of
+  SMGo/Proofs/FiatComposeCurve.lean, at the relation `q = valPt p` and the trivial modulus 2^256, for which `Canon` is
+  `Out4`) the schedules, GetAffineX and Bytes over `pointCtx4` return what they return over `pointCtxFiat` on the
+  underlying limbs.  The closed statements of section 3 are restated for `pointCtxFiat`, the model of
+  SMGo/Props/SM2Fiat.lean; points are encoded by `ptV id` and must have `Out4` coordinates (`Out4Pt`). -/
+
+section Transfer
+open SMGo.Proofs.FiatCompose (GRel ORel All2 TableOK scalarMult_rel scalarBaseMult_rel)
+open SMGo.Proofs.Fiat (Canon)
+open SMGo.Model.SM2 (fiatP pointCtxFiat)
+
+/-- the underlying point on limb lists -/
+def valPt (p : Model.Point.Pt Limbs) : Model.Point.Pt (List Nat) := ⟨p.x.val, p.y.val, p.z.val⟩
+
+/-- the encodings agree -/
+theorem ptV_valPt (p : Model.Point.Pt Limbs) : ptV encL p = ptV id (valPt p) := rfl
+
+/-- a point on limb lists with well-formed coordinates -/
+structure Out4Pt (p : Model.Point.Pt (List Nat)) : Prop where
+  x : Out4 p.x
+  y : Out4 p.y
+  z : Out4 p.z
+
+/-- the point of `Limbs` over a well-formed point -/
+def liftPt (p : Model.Point.Pt (List Nat)) (h : Out4Pt p) : Model.Point.Pt Limbs := ⟨⟨p.x, h.x⟩, ⟨p.y, h.y⟩, ⟨p.z, h.z⟩⟩
+
+theorem valPt_liftPt (p : Model.Point.Pt (List Nat)) (h : Out4Pt p) : valPt (liftPt p h) = p := rfl
+
+theorem out4Pt_valPt (p : Model.Point.Pt Limbs) : Out4Pt (valPt p) := ⟨p.x.2, p.y.2, p.z.2⟩
+
+/-- the trivial modulus: `Canon M256 l ↔ Out4 l` -/
+def M256 : Nat := 115792089237316195423570985008687907853269984665640564039457584007913129639936
+
+theorem canon_of_out4 {l : List Nat} (h : Out4 l) : Canon M256 l := by
+  obtain ⟨a, b, c, d, rfl, ha, hb, hc, hd⟩ := h
+  exact SMGo.Proofs.Fiat.canon_mk ha hb hc hd (by unfold M256; omega)
+
+theorem out4_of_canon {m : Nat} {l : List Nat} (h : Canon m l) : Out4 l := by
+  obtain ⟨hl, hb, _⟩ := h
+  obtain ⟨a, b, c, d, rfl⟩ := len4 l hl
+  have e : (2 : Nat) ^ 64 = 18446744073709551616 := by decide
+  rw [e] at hb
+  exact ⟨a, b, c, d, rfl, hb a (by simp), hb b (by simp), hb c (by simp), hb d (by simp)⟩
+
+/-! ### the straight-line programs -/
+
+def valEnv (e : Model.SLP.Env Limbs) : Model.SLP.Env (List Nat) := e.map (fun kv => (kv.1, kv.2.val))
+
+theorem get_valEnv (e : Model.SLP.Env Limbs) (r : String) :
+    Model.SLP.Env.get fiatP.zero (valEnv e) r = (Model.SLP.Env.get fiatP4.zero e r).val := by
+  induction e with
+  | nil => rfl
+  | cons kv e ih =>
+    unfold Model.SLP.Env.get at ih ⊢
+    simp only [valEnv, List.map_cons, List.find?_cons] at ih ⊢
+    by_cases h : (kv.1 == r) = true
+    · simp only [h]
+    · simp only [h]
+      exact ih
+
+theorem step_valEnv (e : Model.SLP.Env Limbs) (i : Model.SLP.Instr) :
+    Model.SLP.step (Model.Point.slpOps fiatP) (valEnv e) i = valEnv (Model.SLP.step (Model.Point.slpOps fiatP4) e i) := by
+  have ha := get_valEnv e i.a
+  have hb := get_valEnv e i.b
+  unfold Model.SLP.step
+  show (i.dst, _) :: valEnv e = (i.dst, _) :: valEnv e
+  congr 2
+  show (match i.op with
+    | .mul => fiatP.mul (Model.SLP.Env.get fiatP.zero (valEnv e) i.a) (Model.SLP.Env.get fiatP.zero (valEnv e) i.b)
+    | .add => fiatP.add (Model.SLP.Env.get fiatP.zero (valEnv e) i.a) (Model.SLP.Env.get fiatP.zero (valEnv e) i.b)
+    | .sub => fiatP.sub (Model.SLP.Env.get fiatP.zero (valEnv e) i.a) (Model.SLP.Env.get fiatP.zero (valEnv e) i.b)
+    | .square => fiatP.square (Model.SLP.Env.get fiatP.zero (valEnv e) i.a)) = _
+  rw [ha, hb]
+  cases i.op <;> rfl
+
+theorem eval_valEnv (prog : List Model.SLP.Instr) : ∀ e : Model.SLP.Env Limbs,
+    Model.SLP.eval (Model.Point.slpOps fiatP) prog (valEnv e) = valEnv (Model.SLP.eval (Model.Point.slpOps fiatP4) prog e) := by
+  induction prog with
+  | nil => intro e; rfl
+  | cons i prog ih =>
+    intro e
+    show Model.SLP.eval _ prog (Model.SLP.step _ (valEnv e) i) = valEnv (Model.SLP.eval _ prog (Model.SLP.step _ e i))
+    rw [step_valEnv, ih]
+
+/-! ### the point operations commute with `valPt` -/
+
+theorem infinity_val : Model.Point.infinity pointCtxFiat = valPt (Model.Point.infinity pointCtx4) := rfl
+
+theorem negate_val (p : Model.Point.Pt Limbs) :
+    Model.Point.negate pointCtxFiat (valPt p) = valPt (Model.Point.negate pointCtx4 p) := rfl
+
+theorem add_val (a c : Model.Point.Pt Limbs) :
+    Model.Point.add pointCtxFiat (valPt a) (valPt c) = valPt (Model.Point.add pointCtx4 a c) := by
+  have e0 : ([("p1.x", (valPt a).x), ("p1.y", (valPt a).y), ("p1.z", (valPt a).z), ("p2.x", (valPt c).x), ("p2.y", (valPt c).y),
+      ("p2.z", (valPt c).z), ("sm2B", pointCtxFiat.b)] : Model.SLP.Env (List Nat))
+      = valEnv [("p1.x", a.x), ("p1.y", a.y), ("p1.z", a.z), ("p2.x", c.x), ("p2.y", c.y), ("p2.z", c.z), ("sm2B", pointCtx4.b)] := rfl
+  unfold Model.Point.add
+  show ({ x := Model.SLP.Env.get fiatP.zero (Model.SLP.eval (Model.Point.slpOps fiatP) Gen.PointSLP.add _) _,
+          y := Model.SLP.Env.get fiatP.zero (Model.SLP.eval (Model.Point.slpOps fiatP) Gen.PointSLP.add _) _,
+          z := Model.SLP.Env.get fiatP.zero (Model.SLP.eval (Model.Point.slpOps fiatP) Gen.PointSLP.add _) _ } : Model.Point.Pt (List Nat)) = _
+  rw [e0, eval_valEnv, get_valEnv, get_valEnv, get_valEnv]
+  rfl
+
+theorem double_val (a : Model.Point.Pt Limbs) :
+    Model.Point.double pointCtxFiat (valPt a) = valPt (Model.Point.double pointCtx4 a) := by
+  have e0 : ([("p.x", (valPt a).x), ("p.y", (valPt a).y), ("p.z", (valPt a).z), ("sm2B", pointCtxFiat.b)] : Model.SLP.Env (List Nat))
+      = valEnv [("p.x", a.x), ("p.y", a.y), ("p.z", a.z), ("sm2B", pointCtx4.b)] := rfl
+  unfold Model.Point.double
+  show ({ x := Model.SLP.Env.get fiatP.zero (Model.SLP.eval (Model.Point.slpOps fiatP) Gen.PointSLP.double _) _,
+          y := Model.SLP.Env.get fiatP.zero (Model.SLP.eval (Model.Point.slpOps fiatP) Gen.PointSLP.double _) _,
+          z := Model.SLP.Env.get fiatP.zero (Model.SLP.eval (Model.Point.slpOps fiatP) Gen.PointSLP.double _) _ } : Model.Point.Pt (List Nat)) = _
+  rw [e0, eval_valEnv, get_valEnv, get_valEnv, get_valEnv]
+  rfl
+
+theorem pointCtx4_F : pointCtx4.F = fiatP4 := rfl
+theorem pointCtxFiat_F : pointCtxFiat.F = fiatP := rfl
+
+theorem ofRaw_msl_val (pre : List (List Nat)) (width bits : Nat) (fb : List Nat) (fc : Nat) :
+    (fiatP4.ofRaw (Model.Field.multiSelectLimbs pre width bits fb fc)).val
+      = fiatP.ofRaw (Model.Field.multiSelectLimbs pre width bits fb fc) :=
+  fiatP4_ofRaw_val _ (CTIRRefinePointB.multiSelectLimbs_out4 pre width bits fb fc)
+
+theorem select_val (a b : Limbs) (c : Nat) : (Model.Field.select a b c).val = Model.Field.select a.val b.val c := by
+  unfold Model.Field.select; split <;> rfl
+
+theorem multiSelect_val (q : Model.Point.Pt Limbs) (t : Table) (hasZ : Bool) (w bits : Nat) :
+    ORel (fun p r => r = valPt p) (Model.Point.multiSelect pointCtx4 q t hasZ w bits)
+      (Model.Point.multiSelect pointCtxFiat (valPt q) t hasZ w bits) := by
+  unfold Model.Point.multiSelect
+  by_cases h : (t.getD 0 []).length ≠ w
+  · simp only [if_pos h]; exact trivial
+  · simp only [if_neg h]
+    show (_ : Model.Point.Pt (List Nat)) = valPt _
+    cases hasZ
+    · simp only [valPt, pointCtx4_F, pointCtxFiat_F, Bool.false_eq_true, if_false, ofRaw_msl_val, select_val]
+      rfl
+    · simp only [valPt, pointCtx4_F, pointCtxFiat_F, if_true, ofRaw_msl_val]
+      rfl
+
+theorem all2_val : ∀ (l1 : List (Model.Point.Pt Limbs)) (l2 : List (Model.Point.Pt (List Nat))),
+    All2 (fun p r => r = valPt p) l1 l2 → l2 = l1.map valPt := by
+  intro l1 l2 h
+  induction h with
+  | nil => rfl
+  | cons hab _ ih => rw [hab, ih]; rfl
+
+/-- the point operations of `pointCtx4` and of `pointCtxFiat` are related by `valPt` -/
+theorem grel4 : GRel M256 (fun p r => r = valPt p) (pointOps pointCtx4) (pointOps pointCtxFiat) where
+  infinity := infinity_val
+  add := fun a b c d h1 h2 => by subst h1 h2; exact add_val a c
+  double := fun a b h1 => by subst h1; exact double_val a
+  negate := fun a b h1 => by subst h1; exact negate_val a
+  selectXY := fun t w bits _ _ => multiSelect_val (Model.Point.infinity pointCtx4) t false w bits
+  selectXYZ := fun t w bits _ _ => multiSelect_val (Model.Point.infinity pointCtx4) t true w bits
+  fromXY := fun x y hx hy => by
+    show Model.Point.fromXY pointCtxFiat x y = valPt (Model.Point.fromXY pointCtx4 x y)
+    simp only [Model.Point.fromXY, valPt, pointCtx4_F, pointCtxFiat_F, fiatP4_ofRaw_val x (out4_of_canon hx),
+      fiatP4_ofRaw_val y (out4_of_canon hy)]
+    rfl
+  transform := fun l1 l2 h => by
+    rw [all2_val l1 l2 h]
+    refine ⟨?_, ?_⟩
+    · show Model.Point.transformPrecomputed pointCtx4 l1 = Model.Point.transformPrecomputed pointCtxFiat (l1.map valPt)
+      simp only [Model.Point.transformPrecomputed, List.map_map]
+      rfl
+    · show TableOK M256 (Model.Point.transformPrecomputed pointCtx4 l1)
+      intro c hc e he
+      simp only [Model.Point.transformPrecomputed, List.mem_cons, List.not_mem_nil, or_false] at hc
+      rcases hc with rfl | rfl | rfl <;>
+      · obtain ⟨p, _, rfl⟩ := List.mem_map.mp he
+        exact canon_of_out4 (Subtype.property _)
+
+/-- ScalarMult over `pointCtx4` and over `pointCtxFiat` return the same outcome on the underlying limbs -/
+theorem scalarMult_val (P : Model.Point.Pt Limbs) (scalar : Bytes) :
+    ORel (fun p r => r = valPt p) (Model.Curve.scalarMult (pointOps pointCtx4) P scalar)
+      (Model.Curve.scalarMult (pointOps pointCtxFiat) (valPt P) scalar) :=
+  scalarMult_rel grel4 rfl scalar
+
+/-- the comb over `pointCtx4` and over `pointCtxFiat`, tables of `Out4` entries, second table of at most 255 entries -/
+theorem scalarBaseMult_val (k : Bytes) (first : List Table) (second : Table) (window sub it rem : Nat)
+    (hf : ∀ t ∈ first, ∀ c ∈ t, ∀ e ∈ c, Out4 e) (hs : ∀ c ∈ second, ∀ e ∈ c, Out4 e)
+    (hl : (second.getD 0 []).length ≤ 255) :
+    ORel (fun p r => r = valPt p) (Model.Curve.scalarBaseMult (pointOps pointCtx4) k first second window sub it rem)
+      (Model.Curve.scalarBaseMult (pointOps pointCtxFiat) k first second window sub it rem) :=
+  scalarBaseMult_rel grel4 k first second window sub it rem
+    (fun t ht c hc e he => canon_of_out4 (hf t ht c hc e he)) (fun c hc e he => canon_of_out4 (hs c hc e he)) hl
+
+/-! ### inversion, affine x and encoding commute with `valPt` -/
+
+theorem getD_map_val (r : List Limbs) (i : Nat) :
+    (r.map Subtype.val).getD i fiatP.zero = (r.getD i fiatP4.zero).val := by
+  simp only [List.getD_eq_getElem?_getD, List.getElem?_map]
+  cases r[i]? <;> rfl
+
+theorem opStep_val (r : List Limbs) (op : SMGo.Model.AddChain.Op) :
+    (CTIRRefinePointB.opStep fiatP4 r op).map Subtype.val = CTIRRefinePointB.opStep fiatP (r.map Subtype.val) op := by
+  cases op with
+  | sq d s => simp only [CTIRRefinePointB.opStep, List.map_set, getD_map_val]; rfl
+  | mul d a b => simp only [CTIRRefinePointB.opStep, List.map_set, getD_map_val]; rfl
+
+theorem foldl_opStep_val (ops : List SMGo.Model.AddChain.Op) : ∀ r : List Limbs,
+    (ops.foldl (CTIRRefinePointB.opStep fiatP4) r).map Subtype.val
+      = ops.foldl (CTIRRefinePointB.opStep fiatP) (r.map Subtype.val) := by
+  induction ops with
+  | nil => intro r; rfl
+  | cons op ops ih => intro r; rw [List.foldl_cons, List.foldl_cons, ih, opStep_val]
+
+/-- the Fermat inversion (the generated addition chain) commutes with `Subtype.val` -/
+theorem invert_val (x : Limbs) : (Model.Field.invert fiatP4 x).val = Model.Field.invert fiatP x.val := by
+  rw [CTIRRefinePointB.invert_eq fiatP4 x rfl rfl, CTIRRefinePointB.invert_eq fiatP x.val rfl rfl, ← getD_map_val,
+    foldl_opStep_val]
+  rfl
+
+theorem isZero_val (a : Limbs) : Model.Field.isZero fiatP4 a = Model.Field.isZero fiatP a.val := rfl
+theorem toNat_val (a : Limbs) : Model.Field.toNat fiatP4 a = Model.Field.toNat fiatP a.val := rfl
+
+theorem getAffineX_val (p : Model.Point.Pt Limbs) :
+    Model.Point.getAffineX pointCtxFiat (valPt p) = Model.Point.getAffineX pointCtx4 p := by
+  unfold Model.Point.getAffineX
+  simp only [pointCtx4_F, pointCtxFiat_F, valPt, isZero_val, toNat_val, fiatP4_mul_val, invert_val]
+  rfl
+
+theorem pointBytes_val (p : Model.Point.Pt Limbs) :
+    Model.Point.bytes pointCtxFiat (valPt p) true = Model.Point.bytes pointCtx4 p true := by
+  unfold Model.Point.bytes
+  simp only [pointCtx4_F, pointCtxFiat_F, valPt, isZero_val, fiatP4_bytes, fiatP4_mul_val, invert_val, if_true]
+
+/-! ### The closed statements over `Model.SM2.pointCtxFiat` -/
+
+variable {X : Oracle}
+
+/-- **ScalarMult of `prog` = `Model.Curve.scalarMult (pointOps Model.SM2.pointCtxFiat)`**, for every point with `Out4`
+    coordinates and every scalar of fewer than 2^63 bytes; the result has `Out4` coordinates.  Fully closed. -/
+theorem ir_scalarMult_eq_pointCtxFiat (Pt : Model.Point.Pt (List Nat)) (hPt : Out4Pt Pt) (scalar : Bytes)
+    (hlen : scalar.length < 2 ^ 63) :
+    match Model.Curve.scalarMult (pointOps pointCtxFiat) Pt scalar with
+    | .ok r => Out4Pt r ∧ ∀ f, fuelScalarMult scalar.length fuelFiat fuelFiat fuelFiat fuelFiat fuelFiat ≤ f →
+        runV prog globals X f f_internal_ScalarMult [ptV id Pt, bytesV scalar] = .ret [ptV id r, .int 0]
+    | .panic =>
+        (∃ F, ∀ f, F ≤ f → runV prog globals X f f_internal_ScalarMult [ptV id Pt, bytesV scalar] = .panic) ∨
+        (∀ f, runV prog globals X f f_internal_ScalarMult [ptV id Pt, bytesV scalar] = .stuck)
+    | .err => False := by
+  have key := ir_scalarMult_eq_model_fiat (X := X) (liftPt Pt hPt) scalar hlen
+  have tr := scalarMult_val (liftPt Pt hPt) scalar
+  rw [valPt_liftPt] at tr
+  cases h4 : Model.Curve.scalarMult (pointOps pointCtx4) (liftPt Pt hPt) scalar with
+  | ok a =>
+    cases hL : Model.Curve.scalarMult (pointOps pointCtxFiat) Pt scalar with
+    | ok b =>
+      rw [h4, hL] at tr
+      have tr' : b = valPt a := tr
+      subst tr'
+      rw [h4] at key
+      exact ⟨out4Pt_valPt a, key⟩
+    | err => rw [h4, hL] at tr; exact tr.elim
+    | panic => rw [h4, hL] at tr; exact tr.elim
+  | err => rw [h4] at key; exact key.elim
+  | panic =>
+    cases hL : Model.Curve.scalarMult (pointOps pointCtxFiat) Pt scalar with
+    | ok b => rw [h4, hL] at tr; exact tr.elim
+    | err => rw [h4, hL] at tr; exact tr.elim
+    | panic => rw [h4] at key; exact key
+
+theorem tables_6_3_14_out4 :
+    (∀ t ∈ Gen.SM2Tables.sm2Precomputed_6_3_14, ∀ c ∈ t, ∀ e ∈ c, Out4 e) ∧
+      (∀ c ∈ Gen.SM2Tables.sm2Precomputed_6_3_14_Remainder, ∀ e ∈ c, Out4 e) := by
+  have h1 : Gen.SM2Tables.sm2Precomputed_6_3_14.all (fun t => t.all (fun c => c.all isOut4)) = true := by decide +kernel
+  have h2 : Gen.SM2Tables.sm2Precomputed_6_3_14_Remainder.all (fun c => c.all isOut4) = true := by decide +kernel
+  refine ⟨fun t ht c hc e he => out4_of_isOut4 ?_, fun c hc e he => out4_of_isOut4 ?_⟩
+  · exact List.all_eq_true.mp (List.all_eq_true.mp (List.all_eq_true.mp h1 t ht) c hc) e he
+  · exact List.all_eq_true.mp (List.all_eq_true.mp h2 c hc) e he
+
+/-- **the fixed-base multiplication of the Go code = `Model.SM2.scalarBaseMult Model.SM2.ctxFiat`** (the comb 6-3-14-4 over
+    the generated tables and the generated Fiat functions), standard external world: NO hypothesis.  `.ok r`: the run
+    returns the point `r` (`Out4` coordinates) and a nil error; `.err` (`len(k) ≠ 32`): a nil point and an error;
+    `.panic` does not happen on the generated tables (`Props/SM2Fiat.lean`), the statement covers it anyway. -/
+theorem ir_scalarBaseMult_eq_ctxFiat_std (tape : Nat → Nat → Nat) (k : Bytes) :
+    match Model.SM2.scalarBaseMult Model.SM2.ctxFiat k with
+    | .ok r => Out4Pt r ∧ ∀ f, 2278031 ≤ f →
+        runV prog globals (stdOracle extKinds tape) f f_internal_scalarBaseMult_SkipBitExtration
+          [bytesV k, globals 7, globals 8, .int 6, .int 3, .int 14, .int 4] = .ret [ptV id r, .int 0]
+    | .err => ∀ f, 20 ≤ f →
+        runV prog globals (stdOracle extKinds tape) f f_internal_scalarBaseMult_SkipBitExtration
+          [bytesV k, globals 7, globals 8, .int 6, .int 3, .int 14, .int 4] = .ret [CTIRRefineComb.nilPointV, .int 1]
+    | .panic =>
+        (∃ F, ∀ f, F ≤ f → runV prog globals (stdOracle extKinds tape) f f_internal_scalarBaseMult_SkipBitExtration
+          [bytesV k, globals 7, globals 8, .int 6, .int 3, .int 14, .int 4] = .panic) ∨
+        (∀ f, runV prog globals (stdOracle extKinds tape) f f_internal_scalarBaseMult_SkipBitExtration
+          [bytesV k, globals 7, globals 8, .int 6, .int 3, .int 14, .int 4] = .stuck) := by
+  have key := ir_scalarBaseMult_6_3_14_fiat_std tape k
+  have tr := scalarBaseMult_val k Gen.SM2Tables.sm2Precomputed_6_3_14 Gen.SM2Tables.sm2Precomputed_6_3_14_Remainder 6 3 14 4
+    tables_6_3_14_out4.1 tables_6_3_14_out4.2 (by rw [second_6_3_14_width]; decide)
+  rw [fuelScalarBaseMult_6_3_14] at key
+  have e : Model.SM2.scalarBaseMult Model.SM2.ctxFiat k = Model.Curve.scalarBaseMult (pointOps pointCtxFiat) k
+      Gen.SM2Tables.sm2Precomputed_6_3_14 Gen.SM2Tables.sm2Precomputed_6_3_14_Remainder 6 3 14 4 := rfl
+  rw [e]
+  cases h4 : Model.Curve.scalarBaseMult (pointOps pointCtx4) k Gen.SM2Tables.sm2Precomputed_6_3_14
+      Gen.SM2Tables.sm2Precomputed_6_3_14_Remainder 6 3 14 4 with
+  | ok a =>
+    cases hL : Model.Curve.scalarBaseMult (pointOps pointCtxFiat) k Gen.SM2Tables.sm2Precomputed_6_3_14
+        Gen.SM2Tables.sm2Precomputed_6_3_14_Remainder 6 3 14 4 with
+    | ok b =>
+      rw [h4, hL] at tr
+      have tr' : b = valPt a := tr
+      subst tr'
+      rw [h4] at key
+      exact ⟨out4Pt_valPt a, key⟩
+    | err => rw [h4, hL] at tr; exact tr.elim
+    | panic => rw [h4, hL] at tr; exact tr.elim
+  | err =>
+    cases hL : Model.Curve.scalarBaseMult (pointOps pointCtxFiat) k Gen.SM2Tables.sm2Precomputed_6_3_14
+        Gen.SM2Tables.sm2Precomputed_6_3_14_Remainder 6 3 14 4 with
+    | ok b => rw [h4, hL] at tr; exact tr.elim
+    | err => rw [h4] at key; exact key
+    | panic => rw [h4, hL] at tr; exact tr.elim
+  | panic =>
+    cases hL : Model.Curve.scalarBaseMult (pointOps pointCtxFiat) k Gen.SM2Tables.sm2Precomputed_6_3_14
+        Gen.SM2Tables.sm2Precomputed_6_3_14_Remainder 6 3 14 4 with
+    | ok b => rw [h4, hL] at tr; exact tr.elim
+    | err => rw [h4, hL] at tr; exact tr.elim
+    | panic => rw [h4] at key; exact key
+
+/-- **(*SM2Point).GetAffineX of `prog` = `Model.Point.getAffineX Model.SM2.pointCtxFiat`**, standard external world -/
+theorem ir_GetAffineX_eq_pointCtxFiat_std (tape : Nat → Nat → Nat) (p : Model.Point.Pt (List Nat)) (hp : Out4Pt p) :
+    ∀ f, 247858 ≤ f →
+      runV prog globals (stdOracle extKinds tape) f f_internal_SM2Point_GetAffineX [ptV id p]
+        = .ret [.int ((Model.Point.getAffineX pointCtxFiat p : Nat) : Int)] := by
+  have key := ir_GetAffineX_fiat_std tape (liftPt p hp)
+  rw [← getAffineX_val, valPt_liftPt, fuelGetAffineX_fiat] at key
+  exact key
+
+/-- **(*SM2Point).Bytes of `prog` = `Model.Point.bytes Model.SM2.pointCtxFiat p true`**, any external world -/
+theorem ir_PointBytes_eq_pointCtxFiat (p : Model.Point.Pt (List Nat)) (hp : Out4Pt p) :
+    ∀ f, 250766 ≤ f →
+      runV prog globals X f f_internal_SM2Point_Bytes [ptV id p] = .ret [bytesV (Model.Point.bytes pointCtxFiat p true)] := by
+  have key := ir_PointBytes_fiat (X := X) (liftPt p hp)
+  rw [← pointBytes_val, valPt_liftPt, fuelPointBytes_fiat] at key
+  exact key
+
+end Transfer
+
 #print axioms ir_scalarMult_eq_model_closed
 #print axioms ir_scalarBaseMult_eq_model_closed
-#print axioms ir_scalarMult_eq_model_closedW
-#print axioms ir_scalarBaseMult_eq_model_closedW
-#print axioms fiatPrimsW4
+#print axioms fiatPrims4
 #print axioms encOk4
 #print axioms bytesPrims4
 #print axioms setBytesPrims4
@@ -928,5 +1120,21 @@ theorem globals_8 : globals 8 = CTIRRefineComb.encT Gen.SM2Tables.sm2Precomputed
 #print axioms ir_scalarMult_eq_model_fiat
 #print axioms ir_scalarBaseMult_eq_model_fiat
 #print axioms ir_scalarBaseMult_6_3_14_fiat
+#print axioms ir_Invert_closed
+#print axioms ir_GetAffineX_closed
+#print axioms ir_PointBytes_closed
+#print axioms ir_Invert_fiat
+#print axioms ir_GetAffineX_fiat
+#print axioms ir_GetAffineX_fiat_std
+#print axioms ir_PointBytes_fiat
+#print axioms ir_scalarBaseMult_6_3_14_fiat_std
+#print axioms ir_SetBytes_fiat
+#print axioms ir_PointAdd_fiat
+#print axioms ir_PointDouble_fiat
+#print axioms grel4
+#print axioms ir_scalarMult_eq_pointCtxFiat
+#print axioms ir_scalarBaseMult_eq_ctxFiat_std
+#print axioms ir_GetAffineX_eq_pointCtxFiat_std
+#print axioms ir_PointBytes_eq_pointCtxFiat
 
 end SMGo.Proofs.CTIRRefineClosed
